@@ -2,6 +2,8 @@ package props
 
 import (
 	"fmt"
+	"go/constant"
+	"go/token"
 	"strings"
 
 	"golang.org/x/tools/go/ssa"
@@ -198,6 +200,8 @@ func completionClosure(fn *ssa.Function) *ssa.Function {
 func (c *Ctx) unreachableOnFailedCheck(g *paths.Graph, key, what string, target func(paths.Node) bool, isGuard func(*ssa.If) (int, bool), pos string) {
 	found := false
 	old := g.PruneEdge
+	g.Learn = true
+	defer func() { g.Learn = false }()
 	g.PruneEdge = func(f *paths.Frame, iff *ssa.If, idx int) bool {
 		if fail, ok := isGuard(iff); ok {
 			found = true
@@ -245,14 +249,17 @@ func (c *Ctx) unreachableWhenUnequal(g *paths.Graph, key, what string, target fu
 	found := false
 	var hit []paths.Node
 	old := g.PruneEdge
+	g.Learn = true
+	defer func() { g.Learn = false }()
 	for _, less := range []bool{true, false} {
 		g.PruneEdge = func(f *paths.Frame, iff *ssa.If, idx int) bool {
 			bo, ok := iff.Cond.(*ssa.BinOp)
 			if !ok {
 				return false
 			}
-			cx, ok1 := bo.X.(*ssa.Call)
-			cy, ok2 := bo.Y.(*ssa.Call)
+			ex, ey := eqOperands(bo)
+			cx, ok1 := ex.(*ssa.Call)
+			cy, ok2 := ey.(*ssa.Call)
 			if !ok1 || !ok2 || !m(cx) || !m(cy) {
 				return false
 			}
@@ -305,7 +312,10 @@ func (c *Ctx) clientSubscribeClosure() {
 	}
 	pos := c.P.Pos(cl.Pos())
 	c.closureRangesOverOwnRequest(cl, "SubscribeMessage", "client-subscribe:walks-the-stored-request")
-	g := paths.New(c.P, cl, 0)
+	isTopics := func(call *ssa.Call) bool { return ir.IsMethod(call.Common(), pkgMessage, "SubscribeMessage", "Topics") }
+	host, l, above := c.loopOverVia(cl, isTopics)
+	g := paths.New(c.P, cl, 1)
+	g.Expand = func(callee *ssa.Function, site ssa.CallInstruction) bool { return callee == host && host != cl }
 	treeSub := nodeM(mMethod(pkgTopics, "Manager", "Subscribe"))
 	if len(nodesMatching(g, treeSub)) == 0 {
 		c.R.Bad(ruleP5, "client-subscribe:callback-registered-on-SUBACK", pos, "the SUBACK completion closure does not enter the callback into the client's local tree")
@@ -347,7 +357,6 @@ func (c *Ctx) clientSubscribeClosure() {
 	c.unreachableWhenUnequal(g, "client-subscribe:only-if-ids-match", "sub.PacketID() == suback.PacketID()", treeSub, isPktID, pos)
 	c.unreachableWhenUnequal(g, "client-subscribe:only-if-one-code-per-filter", "len(topics) == len(retcodes)", treeSub, isLen, pos)
 	// per filter: registered iff its return code is not 0x80
-	l := loopOver(cl, func(call *ssa.Call) bool { return ir.IsMethod(call.Common(), pkgMessage, "SubscribeMessage", "Topics") })
 	if l == nil {
 		c.R.Bad(ruleP4, "client-subscribe:loop-over-filters", pos, "no loop over the request's filters in the SUBACK completion closure")
 		return
@@ -373,18 +382,19 @@ func (c *Ctx) clientSubscribeClosure() {
 		if !derivesFromLoopElement(a[1], l) {
 			bad = append(bad, "the filter registered is not the loop's element")
 		}
-		if !elementOfParallel(a[2], l, func(call *ssa.Call) bool {
+		if !elementOfParallelVia(a[2], l, func(call *ssa.Call) bool {
 			return ir.IsMethod(call.Common(), pkgMessage, "SubackMessage", "ReturnCodes")
-		}) {
+		}, above) {
 			bad = append(bad, "the QoS registered is not the SUBACK's return code for that filter (retcodes[i])")
 		}
 		// registered callback: address of the captured onPublish
-		tok := tokenOf(a[3])
+		tokv, _ := resolveChain(a[3], above)
+		tok := tokenOf(tokv)
 		if tok == "nil" {
 			bad = append(bad, "no callback is registered")
 		}
 		// guarded by code != 0x80 : with the '== 0x80' edge forced, Subscribe unreachable inside an iteration
-		gg := paths.New(c.P, cl, 0)
+		gg := paths.New(c.P, host, 0)
 		body, end := iterationNodes(gg, l)
 		failAtomSeen := false
 		gg.PruneEdge = func(f *paths.Frame, iff *ssa.If, idx int) bool {
@@ -396,9 +406,9 @@ func (c *Ctx) clientSubscribeClosure() {
 			if !is80 {
 				return false
 			}
-			if !elementOfParallel(other, l, func(call *ssa.Call) bool {
+			if !elementOfParallelVia(other, l, func(call *ssa.Call) bool {
 				return ir.IsMethod(call.Common(), pkgMessage, "SubackMessage", "ReturnCodes")
-			}) {
+			}, above) {
 				return false
 			}
 			failAtomSeen = true
@@ -441,7 +451,7 @@ func (c *Ctx) clientUnsubscribeClosure() {
 	}
 	pos := c.P.Pos(cl.Pos())
 	c.closureRangesOverOwnRequest(cl, "UnsubscribeMessage", "client-unsubscribe:walks-the-stored-request")
-	l := loopOver(cl, func(call *ssa.Call) bool {
+	host, l, _ := c.loopOverVia(cl, func(call *ssa.Call) bool {
 		return ir.IsMethod(call.Common(), pkgMessage, "UnsubscribeMessage", "Topics")
 	})
 	if l == nil {
@@ -478,7 +488,8 @@ func (c *Ctx) clientUnsubscribeClosure() {
 		bad = append(bad, "an iteration can skip Session.RemoveTopic")
 	}
 	c.R.Check(len(bad) == 0, ruleP4, "client-unsubscribe:removes-each-filter", pos, "every filter of the request is removed from the local tree and the session record", joinStr(bad, "; "))
-	g := paths.New(c.P, cl, 0)
+	g := paths.New(c.P, cl, 1)
+	g.Expand = func(callee *ssa.Function, site ssa.CallInstruction) bool { return callee == host && host != cl }
 	treeUn := nodeM(mMethod(pkgTopics, "Manager", "Unsubscribe"))
 	isPktID := func(x *ssa.Call) bool { return ir.IsMethod(x.Common(), pkgMessage, "header", "PacketID") }
 	c.unreachableOnFailedCheck(g, "client-unsubscribe:only-if-no-error", "err == nil", treeUn, func(iff *ssa.If) (int, bool) {
@@ -544,10 +555,28 @@ func cmp0x80(bo *ssa.BinOp) (ssa.Value, bool) {
 	if bo.Op.String() != "==" && bo.Op.String() != "!=" {
 		return nil, false
 	}
-	for _, pr := range [][2]ssa.Value{{bo.X, bo.Y}, {bo.Y, bo.X}} {
+	bx, by := eqOperands(bo)
+	for _, pr := range [][2]ssa.Value{{bx, by}, {by, bx}} {
 		if k, ok := pr[1].(*ssa.Const); ok && k.Value != nil && k.Value.ExactString() == "128" {
 			return pr[0], true
 		}
 	}
 	return nil, false
+}
+
+// eqOperands: the two quantities an equality test compares; `a^b == 0` and `a-b == 0` compare a and b.
+func eqOperands(bo *ssa.BinOp) (ssa.Value, ssa.Value) {
+	if bo.Op != token.EQL && bo.Op != token.NEQ {
+		return bo.X, bo.Y
+	}
+	for _, pr := range [][2]ssa.Value{{bo.X, bo.Y}, {bo.Y, bo.X}} {
+		k, ok := pr[1].(*ssa.Const)
+		if !ok || k.Value == nil || k.Value.Kind() != constant.Int || constant.Sign(k.Value) != 0 {
+			continue
+		}
+		if d, ok := pr[0].(*ssa.BinOp); ok && (d.Op == token.XOR || d.Op == token.SUB) {
+			return d.X, d.Y
+		}
+	}
+	return bo.X, bo.Y
 }
